@@ -100,6 +100,18 @@ Theorem C08_shuffled_pass_visits_each_once : forall (ds : list (bytes * list Z))
     Permutation out (spec_clients ds (fst (spec_run ds view0 ops))).
 Proof. exact shuffled_pass_visits_each_once. Qed.
 
+(* iteration order is deterministic: client_ids() and clients() enumerate the view in an order that is
+   a function of (dataset, operations) alone -- sorted by id for the in-memory and subset-wrapped
+   datasets, insertion (rowid) order for a bare SQLite dataset *)
+Theorem C08_iteration_order : forall (ds : list (bytes * list Z)), NoDup (map fst ds) ->
+  forall p ops,
+  exists d fl, impl_run p ds ops = Some (d, fl) /\
+    let v := fst (spec_run ds view0 ops) in
+    let order := if top_is_sql d then filter (visible v) (map fst ds) else spec_ids ds v in
+    fd_ids d = Val (if top_is_sql d then order else spec_ids ds v) /\
+    map fst (fst (fd_clients d)) = order /\ snd (fd_clients d) = Done.
+Proof. exact iteration_order. Qed.
+
 (* deriving a view never changes its parent: the child is a function of the parent's value,
    and the parent is the run of the prefix whatever is derived afterwards *)
 Theorem C08_derive_is_persistent : forall p ds ops more d' fl',
@@ -171,6 +183,7 @@ Print Assumptions C08_preprocess_order.
 Print Assumptions C08_chain_append.
 Print Assumptions C08_translated_chains.
 Print Assumptions C08_shuffled_pass_visits_each_once.
+Print Assumptions C08_iteration_order.
 Print Assumptions C08_derive_is_persistent.
 Print Assumptions C08_get_clients_request_order.
 Print Assumptions C08_mem_dict_order_irrelevant.
